@@ -333,8 +333,17 @@ class X12Reader(X12Base):
         @param seg_data: Segment data instance
         @type seg_data: L{segment<segment.Segment>}
         """
-        X12Base._parse_segment(self, seg_data)
         seg_id = seg_data.get_seg_id()
+        if seg_id == 'ISA' and self.loops:
+            err_str = 'ISA segment found inside an unterminated {} loop'.format(self.loops[-1][0])
+            self._isa_error('024', err_str)
+        elif seg_id == 'GS' and (not self.loops or self.loops[-1][0] != 'ISA'):
+            err_str = 'GS segment is not directly inside an ISA loop'
+            self._isa_error('024', err_str)
+        elif seg_id == 'ST' and (not self.loops or self.loops[-1][0] != 'GS'):
+            err_str = 'ST segment is not directly inside a GS loop'
+            self._isa_error('024', err_str)
+        X12Base._parse_segment(self, seg_data)
         if seg_id == 'IEA':
             if self.loops and self.loops[-1][0] != 'ISA':
                 # Unterminated GS loop
